@@ -324,4 +324,76 @@ theorem drain_idx_regs (self : Val) (A I junk : List Val) :
   rw [← List.append_assoc, List.drop_append_of_le_length (by simp)]
   simp
 
+/-! ### creation of the captures list -/
+
+theorem set_mid (A B : List Val) (r v : Val) : (A ++ r :: B).set A.length v = A ++ v :: B := by
+  induction A with
+  | nil => rfl
+  | cons a A ih => simp [ih]
+
+theorem set_same_comm (l : List Val) (i k : Nat) (x : Val) :
+    (l.set i x).set k x = (l.set k x).set i x := by
+  by_cases h : i = k
+  · subst h; rfl
+  · exact List.set_comm x x h
+
+theorem applyDeferred_set (fv : Val) (d : List Nat) : ∀ (l : List Val) (i : Nat),
+    applyDeferred fv (l.set i fv) d = (applyDeferred fv l d).set i fv := by
+  induction d with
+  | nil => intro l i; rfl
+  | cons k d ih =>
+    intro l i
+    simp only [applyDeferred, setSlot]
+    rw [set_same_comm, ih]
+
+theorem applyDefaultCaps_spec (vs : List Val) : ∀ (P : List Val) (k : Nat),
+    applyDefaultCaps (P ++ List.replicate (vs.length + k) Val.null) P.length vs
+      = P ++ vs ++ List.replicate k Val.null := by
+  induction vs with
+  | nil => intro P k; simp [applyDefaultCaps]
+  | cons v vs ih =>
+    intro P k
+    simp only [applyDefaultCaps, setSlot, List.length_cons]
+    have e : vs.length + 1 + k = (vs.length + k) + 1 := by omega
+    rw [e, List.replicate_succ, set_mid]
+    have := ih (P ++ [v]) k
+    simp only [List.length_append, List.length_singleton, List.append_assoc, List.singleton_append] at this
+    simpa using this
+
+theorem applyCaptureOps_spec (fv : Val) (D : List Val) (cs : List CapSrc) :
+    ∀ (Q R : List Val), R.length = cs.length →
+      applyDeferred fv (applyCaptureOps D.length (D ++ Q ++ R) Q.length cs).1
+          (applyCaptureOps D.length (D ++ Q ++ R) Q.length cs).2
+        = D ++ Q ++ cs.map (CapSrc.value fv) := by
+  induction cs with
+  | nil =>
+    intro Q R hR
+    have : R = [] := List.eq_nil_of_length_eq_zero hR
+    subst this
+    simp [applyCaptureOps, applyDeferred]
+  | cons c cs ih =>
+    intro Q R hR
+    cases R with
+    | nil => simp at hR
+    | cons r R0 =>
+      have hR0 : R0.length = cs.length := by simpa using hR
+      have hlen : (D ++ Q).length = D.length + Q.length := by simp
+      cases c with
+      | val v =>
+        simp only [applyCaptureOps, setSlot, List.map_cons, CapSrc.value]
+        rw [← hlen, set_mid]
+        have := ih (Q ++ [v]) R0 hR0
+        simp only [List.length_append, List.length_singleton, List.append_assoc, List.singleton_append] at this
+        simpa [List.append_assoc] using this
+      | self =>
+        simp only [applyCaptureOps, applyDeferred, setSlot, List.map_cons, CapSrc.value]
+        rw [applyDeferred_set]
+        have := ih (Q ++ [r]) R0 hR0
+        simp only [List.length_append, List.length_singleton, List.append_assoc, List.singleton_append] at this
+        simp only [List.append_assoc]
+        rw [this]
+        have : D ++ (Q ++ r :: cs.map (CapSrc.value fv)) = (D ++ Q) ++ r :: cs.map (CapSrc.value fv) := by simp
+        rw [this, ← hlen, set_mid]
+        simp
+
 end KotoVerif.C02
